@@ -27,6 +27,23 @@ pub fn run_index(prop: &str, seed: u64, thorough: bool, ctx: &Ctx, sink: &mut dy
     let mut r = Rng::new(seed).sub(99);
     let faults = if r.chance(1, 2) { Faults::Some } else { Faults::None };
     match prop {
+        "C02" if r.chance(1, 6) => {
+            // raw arena blocks next to growing collections: their bytes must not change either
+            let mut s = crate::w2_gen::gen_w2(seed, crate::w2_gen::Focus::Vec);
+            if !s.clients.iter().any(|c| *c == crate::w2_ops::ClientKind::Raw) {
+                s.clients.push(crate::w2_ops::ClientKind::Raw);
+                let ci = (s.clients.len() - 1) as u8;
+                let mut rr = Rng::new(seed).sub(55);
+                let n = s.steps.len();
+                for k in 0..3 {
+                    let at = if n == 0 { 0 } else { rr.usize_below(n.min(4) + 1) };
+                    s.steps.insert(at.min(s.steps.len()), (ci, crate::w2_ops::COp::R(crate::w2_ops::ROp::Alloc { size: 16 + 40 * k, align: 1 << rr.below(4), seed: rr.next() as u32 })));
+                }
+            }
+            let c = Case::W2(s);
+            let res = run_case(&c, ctx);
+            sink(&c, res);
+        }
         "C01" | "C02" | "C04" | "C08" => {
             if prop == "C04" && r.chance(1, 400) {
                 let c = Case::W8;
@@ -63,8 +80,14 @@ pub fn run_index(prop: &str, seed: u64, thorough: bool, ctx: &Ctx, sink: &mut dy
             sink(&c, res);
         }
         "C07" => {
-            if r.chance(1, 4) {
+            if r.chance(1, 6) {
                 let c = Case::W1TwinPulse(gen_w1(seed, Mix::NoLimitWithPulses, Faults::None));
+                let res = run_case(&c, ctx);
+                sink(&c, res);
+            } else if r.chance(1, 5) {
+                // "an arena with no limit behaves as if the feature did not exist": under refusal
+                // plans too, no limit must be indistinguishable from a limit that cannot bind
+                let c = Case::W1TwinNoLimit(gen_w1(seed, Mix::NoLimitWithPulses, faults));
                 let res = run_case(&c, ctx);
                 sink(&c, res);
             } else {
@@ -247,7 +270,7 @@ pub fn nontrivial(prop: &str, st: &Stats) -> bool {
     let g = |k: &str| st.probes.get(k).copied().unwrap_or(0);
     let allocs = g("alloc_fast_path") + g("alloc_slow_path");
     match prop {
-        "C01" | "C02" => allocs >= 3,
+        "C01" | "C02" => allocs >= 3 || g("w2_mirrored_call") >= 2,
         "C03" => g("op_with_chunk_free") >= 1,
         "C04" => allocs >= 1,
         "C06" => g("reset") >= 1,
